@@ -149,6 +149,7 @@ def guards(ctx, H, m):
 
 def run_setup(ctx, case, rng, default_hc):
     from pyoma2.algorithms import SSIcov, SSIdat
+    from pyoma2.functions import ssi as ssi_f
     from pyoma2.setup import SingleSetup
 
     m, nch, fs, cplx, fn, xi, Phi, lam, ref = draw_system(rng, real_only=default_hc)
@@ -191,7 +192,10 @@ def run_setup(ctx, case, rng, default_hc):
         ss.run_by_name("a")
         ctx.check(np.array_equal(data, Y.T), "setup:run_modified_the_records", f"{cls.__name__}.run changed the array holding the records")
         r = alg.result
-        tol = guards(ctx, r.H, m)
+        # the conditioning guards are taken from the block matrix of the records themselves (function path), not from what the class stored:
+        # a class that corrupts its matrix must not talk the check out of judging it
+        H_own, _ = ssi_f.build_hank(np.array(Y, dtype=float), np.array(Y[ref], dtype=float), br, meth)
+        tol = guards(ctx, H_own, m)
         if tol is None:
             continue
         o = 2 * m
